@@ -1007,7 +1007,7 @@ pub fn check(tier: &str, seed: u64) -> i32 {
         .set("distinct_nontrivial", Json::Int(stats.distinct("c17.interleavings") as i128))
         .set(
             "rule",
-            Json::s("one evaluation = one simulated run: (expression from the documented grammar that can fire, second-granular start instant, <= 40 events of clock advance / next() / clone / crash-restart), executed against the real CronSchedule through the clock seam and checked against the reference model after every step. distinct_nontrivial counts distinct event-kind sequences (hash of the executed sequence of advance/next(p)/clone/restart kinds) among runs with at least one judged next() call"),
+            Json::s("one evaluation = one simulated run: (expression from the documented grammar that can fire, second-granular start instant, <= 40 events of clock advance / next() / clone / crash-restart), executed against the real CronSchedule through the clock seam and checked against the reference model after every step. distinct_nontrivial counts distinct event-kind sequences (hash of the executed sequence of advance/next(p)/clone/restart kinds) among runs with at least one judged next() call; the distinct-value sets stop growing at 2,000,000 entries, so in the thorough tier this is a lower bound"),
         )
         .set("samples", Json::Arr(stats.samples.iter().map(|(_, j)| j.clone()).collect()))
         .set("next_calls_checked", Json::Int(calls as i128))
